@@ -267,6 +267,8 @@ where
 
     ensure!(local_values.len() == S::COLUMNS);
     ensure!(next_values.len() == S::COLUMNS);
+    // The prover opens `ctl_zs_first` exactly for STARKs taking part in cross-table lookups.
+    ensure!(ctl_zs_first.is_some() == stark.requires_ctls());
     ensure!(if let Some(quotient_polys) = quotient_polys {
         quotient_polys.len() == stark.num_quotient_polys(config)
     } else {
